@@ -346,8 +346,7 @@ func init() {
 			if m == nil {
 				return a[0]
 			}
-			n := &smap{keyT: m.keyT, keys: append([]value(nil), m.keys...), vals: append([]value(nil), m.vals...)}
-			return iface{t: a[0].(iface).t, v: n}
+			return iface{t: a[0].(iface).t, v: m.clone()}
 		},
 
 		// ---- math/bits fast paths
@@ -853,3 +852,167 @@ func mustPtr(x value) *value {
 }
 
 var _ = unsafe.Pointer(nil)
+
+// ---------------------------------------------------------------------------
+// Codec stubs: the protocol encoders of the dependency are replaced by an
+// injective tagging. The "encoded" []byte has one element, a msgHandle that
+// carries a deep copy of the message; vDecoded turns it back into the message.
+
+type msgHandle struct {
+	kind string // "reply" | "push"
+	msg  value  // *value pointing to the copied struct
+	t    types.Type
+}
+
+func deepCopy(v value, memo map[*value]*value) value {
+	switch x := v.(type) {
+	case *value:
+		if x == nil {
+			return x
+		}
+		if c, ok := memo[x]; ok {
+			return c
+		}
+		n := new(value)
+		memo[x] = n
+		*n = deepCopy(*x, memo)
+		return n
+	case structure:
+		out := make(structure, len(x))
+		for k := range x {
+			out[k] = deepCopy(x[k], memo)
+		}
+		return out
+	case array:
+		out := make(array, len(x))
+		for k := range x {
+			out[k] = deepCopy(x[k], memo)
+		}
+		return out
+	case []value:
+		if x == nil {
+			return x
+		}
+		out := make([]value, len(x))
+		for k := range x {
+			out[k] = deepCopy(x[k], memo)
+		}
+		return out
+	case iface:
+		return iface{t: x.t, v: deepCopy(x.v, memo)}
+	case *smap:
+		if x == nil {
+			return x
+		}
+		out := x.clone()
+		for k := range out.vals {
+			out.vals[k] = deepCopy(out.vals[k], memo)
+		}
+		return out
+	}
+	return v
+}
+
+func encodeHandle(kind string) externalFn {
+	return func(fr *frame, a []value) value {
+		msg := a[1].(*value)
+		if msg == nil {
+			nilDeref()
+		}
+		cp := deepCopy(msg, map[*value]*value{}).(*value)
+		h := msgHandle{kind: kind, msg: cp, t: fr.fn.Signature.Params().At(0).Type()}
+		return tuple{[]value{h}, iface{}}
+	}
+}
+
+func init() {
+	const p = "github.com/centrifugal/protocol."
+	externals["(*"+p+"JSONReplyEncoder).Encode"] = encodeHandle("reply")
+	externals["(*"+p+"ProtobufReplyEncoder).Encode"] = encodeHandle("reply")
+	externals["(*"+p+"JSONPushEncoder).Encode"] = encodeHandle("push")
+	externals["(*"+p+"ProtobufPushEncoder).Encode"] = encodeHandle("push")
+	// vDecoded(data []byte) any: the message behind an encoded handle, or nil
+	intrinsics["vDecoded"] = func(fr *frame, a []value) value {
+		b, _ := a[0].([]value)
+		if len(b) == 1 {
+			if h, ok := b[0].(msgHandle); ok {
+				return iface{t: h.t, v: h.msg}
+			}
+		}
+		return iface{}
+	}
+	externals["github.com/google/uuid.NewRandom"] = func(fr *frame, a []value) value {
+		// fresh, pairwise distinct, deterministic ids
+		fr.i.tokenSeq++
+		t := fr.fn.Signature.Results().At(0).Type() // uuid.UUID = [16]byte
+		arr := zero(t).(array)
+		arr[0] = uint8(0xEE)
+		arr[14] = uint8(fr.i.tokenSeq >> 8)
+		arr[15] = uint8(fr.i.tokenSeq)
+		return tuple{arr, iface{}}
+	}
+	externals["github.com/google/uuid.New"] = func(fr *frame, a []value) value {
+		fr.i.tokenSeq++
+		t := fr.fn.Signature.Results().At(0).Type()
+		arr := zero(t).(array)
+		arr[0] = uint8(0xEE)
+		arr[14] = uint8(fr.i.tokenSeq >> 8)
+		arr[15] = uint8(fr.i.tokenSeq)
+		return arr
+	}
+	externals["os.Hostname"] = func(fr *frame, a []value) value { return tuple{"verif-host", iface{}} }
+	externals["github.com/centrifugal/centrifuge.newMetricsRegistry"] = func(fr *frame, a []value) value {
+		t := fr.fn.Signature.Results().At(0).Type()
+		v := zero(deref(t))
+		return tuple{&v, iface{}}
+	}
+}
+
+func init() {
+	// crypto/rand: a deterministic counter stream (distinct outputs per call)
+	externals["crypto/rand.Read"] = func(fr *frame, a []value) value {
+		b := a[0].([]value)
+		fr.i.tokenSeq++
+		seq := fr.i.tokenSeq
+		for k := range b {
+			b[k] = uint8((seq >> (8 * uint(len(b)-1-k))) & 0xff)
+			if len(b)-1-k >= 4 {
+				b[k] = uint8(0)
+			}
+		}
+		return tuple{len(b), iface{}}
+	}
+	// saferand: deterministic low values (jitter etc. are not part of any claim)
+	const sr = "(*github.com/centrifugal/centrifuge/internal/saferand.Rand)."
+	externals[sr+"Int63n"] = func(fr *frame, a []value) value { return int64(0) }
+	externals[sr+"Intn"] = func(fr *frame, a []value) value { return 0 }
+	externals["math/rand.Intn"] = func(fr *frame, a []value) value { return 0 }
+	externals["math/rand.Int63n"] = func(fr *frame, a []value) value { return int64(0) }
+	externals["math/rand.Int63"] = func(fr *frame, a []value) value { return int64(0) }
+	externals["math/rand.Float64"] = func(fr *frame, a []value) value { return float64(0) }
+	externals["github.com/centrifugal/centrifuge/internal/saferand.New"] = func(fr *frame, a []value) value {
+		t := fr.fn.Signature.Results().At(0).Type()
+		v := zero(deref(t))
+		return &v
+	}
+}
+
+func init() {
+	externals["context.WithValue"] = func(fr *frame, a []value) value {
+		parent := a[0].(iface)
+		if parent.t == nil {
+			panic(targetPanic{"cannot create context from nil parent"})
+		}
+		vt := fr.i.prog.ImportedPackage("context").Type("valueCtx").Type()
+		cell := zero(vt)
+		st := cell.(structure)
+		st[0] = parent
+		st[1] = a[1]
+		st[2] = a[2]
+		return iface{t: types.NewPointer(vt), v: &cell}
+	}
+}
+
+func init() {
+	externals["time.syncTimer"] = func(fr *frame, a []value) value { return unsafe.Pointer(nil) }
+}
